@@ -26,6 +26,18 @@ CLAIMS = {
          "Consumer::cancel idempotence / Drop (consumer.rs) not under contract yet; in-order arrival is crossbeam FIFO (assumed); disconnect on drop of the sender is Rust/crossbeam semantics"),
  "C13": ("Verus proves on the real process() and Inner::process_channel_message: Ack/Nack/Return/Blocked/Unblocked are offered verbatim to the current listener and to nobody else, a failed send clears the listener without error, registering a listener replaces exactly that field of that slot.",
          "handle_set_blocked_tx and the ordering of registration versus later publishes through the mio FIFO are not under contract (schedules)"),
+ "C01": ("Verus proves on the real code: the output buffer starts with the 8-byte protocol header; serialize() appends exactly one generator payload (no padding, nothing before it touched); every push_* appends exactly the bytes of one whole frame; the handle hands over exactly one whole frame per message; process_channel_message appends buffers whole; the write loop conserves written ++ buffered for every short-write / would-block pattern (unbounded loop invariant) and on error only a prefix went out.",
+         "frame generators of amq_protocol/cookie-factory by assumed contract (their bytes are uninterpreted); cross-thread FIFO order of the mio channel and re-arming of socket interest are outside; the per-operation conservation facts compose to 'header ++ whole frames' by induction over operations, stated in DESIGN.md, not machine-checked"),
+ "C02": ("Verus proves on the real ChannelHandle::send_content that the handle emits exactly one content header announcing the body length and the given properties, then body frames that are exactly chunks(body, frame_max) (unbounded loop invariant), with a machine-checked lemma that the chunks concatenate to the body, are non-empty, at most frame_max-8 payload bytes, all but the last full, none for an empty body; Channel0Handle::new fixes the payload limit at frame_max-8 and channels inherit it; the handle-level functions emit exactly one whole frame each.",
+         "IoLoopHandle is seen through a ghost-log mirror whose contracts restate what unit handle proves in permission/receipt form (trusted glue, DESIGN.md 2.6); Channel::basic_publish / Exchange::publish field copies are not under contract yet (unit api); publish order across the thread hand-over is outside"),
+ "C05": ("Verus proves the error mapping on the real code: read side (EOF -> UnexpectedSocketClose, I/O error -> IoErrorReadingSocket, would-block -> Ok, parse failure -> MalformedFrame, handler error propagated), write side (IoErrorWritingSocket, only a prefix written), missed heartbeats, handle send/recv (queued error first, else EventLoopDropped), run_connection / run_amqp_handshake final mapping (ServerClosedConnection with the server's code and text, ClientException, InvalidCredentials).",
+         "PARTIAL by design: that every caller wakes in bounded time, consumer queues terminate, the thread exits and the transport is released follows from dropping senders (Rust drop + crossbeam disconnect) and is outside contract reach; run_io_loop itself is replaced by an assumed trampoline (R12); Connection::close_impl not under contract yet"),
+ "C16": ("Verus proves the real HandshakeState::process transition function for every state and frame (StartOk only in reaction to Start, SaslSecureNotSupported, TuneOk then Open in reaction to Tune with C15's values and nothing below the 4096 floor, CloseOk + seal on a server Close, Done only after OpenOk, FrameUnexpected otherwise, heartbeat ignored), its termination, the frame-level type check, is_handshake_done and the final error mapping of run_amqp_handshake (InvalidCredentials when dropped in Secure, ServerClosedConnection with code and text).",
+         "PARTIAL: make_start_ok (str::split, BTreeMap) is an assumed contract (bounded Kani harness planned for the thorough tier); ConnectionTimeout, 'never hangs', socket errors at every cut are outside; run_io_loop replaced by an assumed trampoline (R12)"),
+ "C17": ("Verus proves the decision logic on the real heartbeats.rs / heartbeat_timers.rs: rx interval is twice the negotiated one, tx equals it; fire() reports Expired exactly when the interval has elapsed up to the documented 5 ms tolerance and re-arms for the full interval or the remaining time (no underflow); activity stamps touch only their own side; with heartbeat 0 nothing is started and nothing can fire; Inner queues a heartbeat frame only when its buffer is empty, maps rx expiry to MissedServerHeartbeats, stamps tx activity on accepted writes.",
+         "PARTIAL (logic only): wall-clock clauses ('at least once per h seconds', 'promptly') and mio-extras timer ticks are outside; Instant/Duration/Timer are mirrors with a ghost clock; Inner sees HeartbeatTimers through a mirror whose contract corresponds to what unit heartbeat proves (trusted glue); the 5 ms tolerance is stated explicitly instead of the idealised 'not before 2h'"),
+ "C20": ("Verus proves on the real IoLoop::handle_steady_event, for every token the loop registers and EVERY connection state and table (the precondition does not constrain the state an earlier event of the batch left behind): no panic site is reachable, Inner's invariant and the sealing invariant are kept, client requests do not change the connection state; stale wake-ups of dropped slots (channel 0 and others) are ignored; allocate_channel keeps the table invariant and the slot/handle carry the allocated id.",
+         "which events mio actually batches is outside; the STREAM arm's read path is a havoc trampoline (R12) constrained by what units framebuf/process prove; 'Connection::close still reports the server's close' relies on C05's outside part"),
 }
 NA = {
  "C18": "every clause is about concurrency or liveness (blocking publishers, mio edge-triggered re-registration, kernel poll state); no contract within reach of Verus/Kani expresses it (DESIGN.md section 5)",
